@@ -112,13 +112,17 @@ def async_schedules(seed, nsteps=10, tie=False, variants=None, family="random"):
     from rex import _verif
 
     rng = random.Random(seed)
-    spec = rt.spec_tie_advance(rng) if family == "tie_advance" else rt.rand_spec(rng, tie_stream=tie)
+    spec = rt.spec_tie_advance(rng) if family == "tie_advance" else (rt.spec_fifo_blocking(rng) if family == "fifo_blocking" else rt.rand_spec(rng, tie_stream=tie))
     run = rt.AsyncRun(spec)
     labels = [n["name"] for n in spec["nodes"]] + [f"{c['src']}->{c['dst']}" for c in spec["conns"]]
     if family == "tie_advance" and variants is None:
         variants = [dict(policy="none", rtf=0, api="run"), dict(policy="starve", rtf=0, api="run", target="n1"), dict(policy="starve", rtf=0, api="step", target="n2"),
                     dict(policy="starve", rtf=0, api="run", target="n1->n2"), dict(policy="slow_ts_input", rtf=0, api="step"), dict(policy="slow_conns", rtf=0, api="run"),
                     dict(policy="slow_nodes", rtf=0, api="run"), dict(policy="random", rtf=0, api="step"), dict(policy="slow_start", rtf=0, api="run")]
+    if family == "fifo_blocking" and variants is None:
+        variants = [dict(policy="none", rtf=0, api="run"), dict(policy="starve", rtf=0, api="run", target="n0"), dict(policy="starve", rtf=0, api="step", target="n0->n1"),
+                    dict(policy="slow_ts_input", rtf=0, api="run"), dict(policy="slow_nodes", rtf=0, api="step"), dict(policy="slow_sched", rtf=0, api="run"),
+                    dict(policy="random", rtf=0, api="step"), dict(policy="slow_start", rtf=0, api="run")]
     if variants is None:
         variants = [dict(policy="none", rtf=0, api="run"), dict(policy="random", rtf=0, api="step"), dict(policy="slow_conns", rtf=0, api="run"),
                     dict(policy="slow_nodes", rtf=0, api="step"), dict(policy="starve", rtf=0, api="run", target=rng.choice(labels)),
@@ -343,7 +347,12 @@ def calls_case(seed, nsteps=8, spec_kind="random"):
             for _ in range(g.max_steps):
                 s7 = g.run(s7)
             calls_short = _calls_snapshot()
-        out["compiled"].append(dict(mode=mode, calls_short=calls_short, horizon=int(g.max_steps), timings=tim, nrun=nrun, calls_run=calls_run, calls_rollout=calls_roll, calls_step=calls_step, overridden=ov, calls_first=calls_first,
+        # (h) an episode number beyond the compiled episodes is clipped to the last one: that episode's schedule is what must run
+        s8 = g.init(rng=jax.random.PRNGKey(spec["seed"]), starting_eps=int(g.max_eps) + 1)
+        for _ in range(nrun):
+            s8 = g.run(s8)
+        calls_oob = _calls_snapshot()
+        out["compiled"].append(dict(mode=mode, calls_short=calls_short, horizon=int(g.max_steps), calls_oob=calls_oob, last_eps=int(g.max_eps) - 1, timings=tim, nrun=nrun, calls_run=calls_run, calls_rollout=calls_roll, calls_step=calls_step, overridden=ov, calls_first=calls_first,
                                     k0=k0, n_late=n_e, calls_late=calls_late, calls_reused=calls_reused, sup=spec["supervisor"]))
     return out
 
